@@ -37,6 +37,23 @@ fn parse_kind(bytes: &[u8]) -> Result<ExpectedParse, String> {
     })
 }
 
+/// Does the parse outcome `got` agree with what the layout implies (`want`)? The statement fixes the verdict for
+/// buffers that are too SHORT for what the header declares and for foreign magic / version; a buffer that is LONGER than
+/// header + sections + declared strings (trailing bytes) may be accepted or refused as a string-size mismatch — neither
+/// contradicts the statement, so neither is reported.
+fn verdict_agrees(got: &ExpectedParse, want: &ExpectedParse, len: usize, h: Option<&Header>) -> bool {
+    if got == want {
+        return true;
+    }
+    if let (ExpectedParse::Ok, Some(h)) = (want, h) {
+        let (_, _, _, strings, _) = layout::offsets(h);
+        if len >= strings && len - strings > h.string_bytes as usize {
+            return matches!(got, ExpectedParse::UnexpectedStringBytes { expected, found } if *expected == h.string_bytes as usize && *found == len - strings);
+        }
+    }
+    false
+}
+
 pub fn header_edits(h: &Header, key: u64) -> Vec<(String, u32, Header)> {
     let mut out = Vec::new();
     let magic = h.magic;
@@ -156,7 +173,7 @@ pub fn check_faults(bytes: &[u8], u: &Universe, key: u64, case_hash: u64, st: &m
             st.class("strict prefix accepted and equivalent to the full file");
             continue;
         }
-        if got != want {
+        if !verdict_agrees(&got, &want, p, h.as_ref()) {
             return Err(Fail::new("prefix-error-kind", format!("the {p}-byte prefix of a {full_len}-byte cache: parse says {got:?}, the layout implies {want:?}")).with(json!({"prefix": p, "header": format!("{header:?}")})));
         }
     }
@@ -202,7 +219,7 @@ pub fn check_faults(bytes: &[u8], u: &Universe, key: u64, case_hash: u64, st: &m
             ExpectedParse::WrongEndianness | ExpectedParse::WrongFormat | ExpectedParse::WrongVersion => "header edit: magic/version",
             _ => "header edit rejected by a section check",
         });
-        if got != want {
+        if !verdict_agrees(&got, &want, full_len, Some(&h)) {
             return Err(Fail::new("header-edit-kind", format!("header edit {name} on a {full_len}-byte cache ({header:?}): parse says {got:?}, the layout implies {want:?}")).with(json!({"edit": name})));
         }
     }
@@ -268,7 +285,7 @@ pub fn check_faults(bytes: &[u8], u: &Universe, key: u64, case_hash: u64, st: &m
                 let got = got.map_err(|e| Fail::new("parse-panic", format!("parse panicked with foreign header {h:?}: {e}")))?;
                 st.class("foreign header: magic and version both differ");
                 st.nontrivial(qhash(case_hash, b'F', &[&m.to_le_bytes(), &v.to_le_bytes(), &[swap_counts as u8]]));
-                if got != want {
+                if !verdict_agrees(&got, &want, full_len, Some(&h)) {
                     return Err(Fail::new("foreign-header-kind", format!("buffer with magic {m:#x} and version {v} ({full_len} bytes): parse says {got:?}, expected {want:?}")).with(json!({"magic": m, "version": v})));
                 }
             }
@@ -291,7 +308,7 @@ pub fn check_foreign(bytes: &[u8], st: &mut Stats) -> Check {
         ExpectedParse::WrongEndianness => "foreign buffer: byte-swapped magic",
         _ => "foreign buffer: other",
     });
-    if got != want {
+    if !verdict_agrees(&got, &want, buf.len(), h.as_ref()) {
         return Err(Fail::new("foreign-buffer-kind", format!("foreign buffer of {} bytes starting {:?}: parse says {got:?}, expected {want:?}", bytes.len(), crate::engine::show_bytes(&bytes[..bytes.len().min(32)]))).with(json!({"hex": crate::engine::hex(&bytes[..bytes.len().min(4096)])})));
     }
     Ok(())
